@@ -145,8 +145,10 @@ extern void __real_pthread_exit(void *) __attribute__((noreturn));
 
 static uint64_t xs(uint64_t *s) { *s ^= *s << 13; *s ^= *s >> 7; *s ^= *s << 17; return *s; }
 
-static void fwait(int *a) { while (__atomic_load_n(a, __ATOMIC_ACQUIRE) == 0) __real_syscall(SYS_futex, a, FUTEX_WAIT_PRIVATE, 0, 0, 0, 0); __atomic_store_n(a, 0, __ATOMIC_RELAXED); }
-static void fwake(int *a) { __atomic_store_n(a, 1, __ATOMIC_RELEASE); __real_syscall(SYS_futex, a, FUTEX_WAKE_PRIVATE, 1, 0, 0, 0); }
+/* The baton operations are real futex calls made on behalf of the code under test at arbitrary scheduling points - also between a failed system
+ * call of the library and its look at errno - so they must leave errno alone (a FUTEX_WAIT that finds the baton already passed fails with EAGAIN). */
+static void fwait(int *a) { int e = errno; while (__atomic_load_n(a, __ATOMIC_ACQUIRE) == 0) __real_syscall(SYS_futex, a, FUTEX_WAIT_PRIVATE, 0, 0, 0, 0); __atomic_store_n(a, 0, __ATOMIC_RELAXED); errno = e; }
+static void fwake(int *a) { int e = errno; __atomic_store_n(a, 1, __ATOMIC_RELEASE); __real_syscall(SYS_futex, a, FUTEX_WAKE_PRIVATE, 1, 0, 0, 0); errno = e; }
 
 /* ---- result reporting ---- */
 static void finish(const char *status, const char *fmt, va_list ap) __attribute__((noreturn));
